@@ -155,6 +155,64 @@ def check_pptx_paragraphs():
     return r
 
 
+def check_html_source():
+    """html.parser + _HtmlTreeBuilder + text walk on source text (read_html)."""
+    H = _mod("html_extractor")
+    r = Result()
+    for case, src, spec in TR.gen_html_sources():
+        res = list(H.read_html(io.BytesIO(src.encode("utf-8"))))
+        out = "\n".join(x.get_full_text() for x in res)
+        ok, w = _cmp("html_extractor.read_html(...).get_full_text()", src, out, spec)
+        r.add(case, ok, w)
+    return r
+
+
+def check_rtf_source():
+    """read_rtf on source text: destination stripping (regexes + group walker)."""
+    R = _mod("ms_legacy.rtf_extractor")
+    r = Result()
+    for case, src, spec in TR.gen_rtf_sources():
+        res = list(R.read_rtf(io.BytesIO(src.encode("ascii"))))
+        out = "\n".join(x.get_full_text() for x in res)
+        ok, w = _cmp("rtf_extractor.read_rtf(...).get_full_text()", src, out, spec)
+        r.add(case, ok, w)
+    return r
+
+
+def check_epub_source():
+    """read_epub on one XHTML chapter built from the same source grammar (html.parser based _XhtmlTextExtractor)."""
+    E = _mod("epub_extractor")
+    from replay import c02_docs
+    r = Result()
+    for case, src, spec in TR.gen_html_sources():
+        if "<div>" not in src:
+            continue
+        body = src.split("<body>", 1)[1].rsplit("</body>", 1)[0].replace("<br>", "<br/>").replace("<img src=x>", '<img src="x"/>')
+        files = dict(c02_docs.EPUB_SKELETON)
+        files["OEBPS/c1.xhtml"] = '<?xml version="1.0"?><html xmlns="http://www.w3.org/1999/xhtml"><head><title>c1</title></head><body>' + body + "</body></html>"
+        res = list(E.read_epub(c02_docs._zip(files)))
+        out = "\n".join(x.get_full_text() for x in res)
+        ok, w = _cmp("epub_extractor.read_epub(...).get_full_text()", files["OEBPS/c1.xhtml"], out, spec)
+        r.add(case, ok, w)
+    return r
+
+
+def check_odp_slide():
+    OP = _mod("open_office.odp_extractor")
+    r = Result()
+    for case, page in TR.gen_odp_pages():
+        slide, _n = OP._extract_slide(None, to_et(page), 1)
+        out, want = slide.text_combined, TR.odp_page_tokens(page)
+        got = sorted(TR.tokens(out))
+        ok = got == want
+        w = None
+        if not ok:
+            d = classify(" ".join(got), " ".join(want)) or {}
+            w = dict(d, target="odp_extractor._extract_slide(...)[0].text_combined", inputs=page.brief(), expected=" ".join(want), observed=out)
+        r.add(case, ok, w)
+    return r
+
+
 def check_html_body():
     H = _mod("html_extractor")
     return _singles_then_pairs(TR.gen_html_bodies(), lambda d: H._HtmlTextExtractor(to_hdict(N("root", d))).extract(),
@@ -278,7 +336,7 @@ CHECKS = {
     "docx.paragraph": check_docx_paragraph, "docx.table": check_docx_table, "docx.body": check_docx_body,
     "odt.body": check_odt_body, "html.extract": check_html_body, "odf.element_text": check_odf_text,
     "ods.sheet": check_ods_sheet, "xlsx.format": check_xlsx_format, "xls.format": check_xls_format,
-    "dt.slides": check_dt_slides, "odg.text": check_odg_text, "pptx.paragraphs": check_pptx_paragraphs,
+    "dt.slides": check_dt_slides, "odp.slide": check_odp_slide, "html.source": check_html_source, "rtf.source": check_rtf_source, "epub.source": check_epub_source, "odg.text": check_odg_text, "pptx.paragraphs": check_pptx_paragraphs,
 }
 
 
@@ -307,6 +365,8 @@ FUNC_OF_CHECK = {
     "xlsx.format": "xlsx_extractor.py::_format_sheet_as_text", "xls.format": "xls_extractor.py::_format_sheet_as_text",
     "odf.element_text": "_shared.py::element_text",
     "odg.text": "odg_extractor.py::_extract_full_text", "pptx.paragraphs": "pptx_extractor.py::_extract_text_from_paragraphs",
+    "odp.slide": "odp_extractor.py::_extract_slide", "html.source": "html_extractor.py::read_html",
+    "rtf.source": "rtf_extractor.py::read_rtf", "epub.source": "epub_extractor.py::read_epub",
 }
 
 # obligation id fragment -> (check, cases, kinds)
@@ -322,6 +382,10 @@ WITNESS_MAP = [
     ("_extract_full_text_from_body/inv-preserve#blocks.sq[content-control]", "docx.body", ["content-control"], None),
     ("_extract_full_text_from_body/", "docx.body", ["plain", "content-control"], None),
     ("_shared.py::", "odf.element_text", None, None),
+    ("_HtmlTreeBuilder.", "html.source", None, None),
+    ("_strip_rtf_full_with_pages/step", "rtf.source", None, None),
+    ("_extract_slide/block#slide-text", "odp.slide", None, None),
+    ("_extract_slide/block#speaker-notes", "odp.slide", None, ["leaked"]),
     ("xls_extractor.py::_format_sheet_as_text/", "xls.format", None, None),
     ("PptSlideContent.text_combined", "dt.slides", ["PptSlideContent"], None),
     ("OdpSlide.text_combined", "dt.slides", ["OdpSlide"], None),
@@ -351,6 +415,12 @@ def find(req):
         if c and c["witness"] is not None:
             return dict(c["witness"], reproduced=True, search=f"{check}[{m.group(2)}]: {c['failures']} of {c['checked']} inputs fail")
         return {"reproduced": False, "note": f"{check}[{m.group(2)}]: no failing input"}
+    if "_process_slide_from_context/block#" in oid:
+        from replay import c02_docs
+        for feat, rec in c02_docs.run_documents(["pptx"]).get("pptx", {}).items():
+            if rec.get("ok") is False:
+                return dict(rec, reproduced=True, search="pptx deck features (replay/c02_docs.py), feature " + feat)
+        return {"reproduced": False, "note": "no failing pptx deck feature"}
     for frag, check, cases, kinds in WITNESS_MAP:
         if frag in oid:
             r = CHECKS[check]()
